@@ -387,10 +387,7 @@ func TestC01(t *testing.T) {
 			if (i*131+j*17+ev.Seed())%pairEvery != 0 {
 				continue
 			}
-			if strings.HasPrefix(fs[i].name, "alias:equals-template-import:") || strings.HasPrefix(fs[j].name, "alias:equals-template-import:") {
-				col.Exclude("pair-with-known-finding-feature")
-				continue
-			}
+
 			members = append(members, latticeMember(fs, []int{i, j}, (i+j)%3 == 0, (i+j)%2 == 0))
 		}
 	}
